@@ -137,3 +137,71 @@ class CheckFailureStrategy:
     def post_alerts(self, old):
         return (all(o in self.sync_alerts for o in SYNC_OPTIONS)
                 and all(implies(not selected(self, o), self.sync_alerts[o] == old.self.sync_alerts[o]) for o in SYNC_OPTIONS))
+
+
+# ------------------------------------------------------------------------------------------ clause 2: re-evaluation hooks
+from contracts.c02 import (fsm_pre, fsm_inv, master_seen_running, WIRING, valid_sm, sees_running)
+
+
+def entries_distinct(sm):
+    """shape validity: the entries of the state & modes map are distinct objects (one StateModes per identifier, built by
+    __init__ / add_instance / update_instance_state)"""
+    ism = sm.instance_state_modes
+    return forall(str, str, lambda i, j: implies(i in ism and j in ism and i != j, ism[i] is not ism[j]))
+
+
+@contract('statemodes:SupvisorsStateModes.on_instance_state_event', props=['C02', 'C08'])
+class OnInstanceStateEvent:
+    """C02 clause 1 (semantic half of the single writer): a STATE publication only ever overwrites the entry of its
+    (remote) sender; one attributed to the local identifier is ignored"""
+    raises = ()
+
+    def pre_valid(self, identifier):
+        return valid_sm(self) and entries_distinct(self) and identifier in self.instance_state_modes
+
+    def modifies(self, identifier, event):
+        e = self.instance_state_modes[identifier]
+        return [field(e, 'state'), field(e, 'degraded_mode'), field(e, 'discovery_mode'), field(e, 'master_identifier'),
+                field(e, 'starting_jobs'), field(e, 'stopping_jobs'), field(e, 'instance_states')]
+
+    def post_local_entry_untouched(self, old):
+        lo, o = LOCAL(self), LOCAL(old.self)
+        return (lo is o and lo.state == o.state and lo.master_identifier == o.master_identifier
+                and lo.instance_states is o.instance_states and lo.degraded_mode == o.degraded_mode)
+
+
+@contract('statemachine:FiniteStateMachine.on_timer_event', props=['C08'])
+class OnTimerEvent:
+    """mechanism 're-evaluation on every local tick': on_timer_event always reaches self.next()"""
+    raises = ()
+
+    def pre_inv(self):
+        return fsm_pre(self) and self.supvisors.state_modes.supvisors is self.supvisors
+
+    def pre_master_seen_running(self):
+        return master_seen_running(self)
+
+    def modifies(self, event):
+        return [everything_but(*WIRING)]
+
+    def post_reaches_next(self):
+        return count_effects('fsm_next') == 1
+
+
+@contract('statemachine:FiniteStateMachine.on_state_event', props=['C08'])
+class OnStateEvent:
+    """mechanism 're-evaluation ... on every Master state publication': next() is called iff the sender is the Master"""
+    raises = ()
+
+    def pre_inv(self, status):
+        return (fsm_pre(self) and entries_distinct(self.supvisors.state_modes)
+                and status.identifier in ISM(self))
+
+    def pre_master_seen_running(self):
+        return master_seen_running(self)
+
+    def modifies(self, status, event):
+        return [everything_but(*WIRING)]
+
+    def post_next_iff_master(self, status, old):
+        return count_effects('fsm_next') == (1 if old.status.identifier == master(old.self) else 0)
